@@ -78,7 +78,7 @@ func pathsToNilReturns(c *eng.Ctx, rule string, fn *ssa.Function, limit int) []e
 func pathHas(p eng.Path, re string, pol bool) bool {
 	rx := regexp.MustCompile(re)
 	for _, a := range p.Atoms {
-		if a.Pos == pol && rx.MatchString(a.Expr) {
+		if a.Pos == pol && (rx.MatchString(a.Expr) || rx.MatchString(a.Mirrored())) {
 			return true
 		}
 	}
